@@ -107,6 +107,15 @@ def post_boyd(old, result, exc, args, kw):
     if defects0:
         return
     if not heads_ok(before):
+        if Cur.case.get('heads', 'direct') != 'direct':
+            bad = [n for n in before.nodes() if n.children and
+                   sum(1 for c in n.children if c.head) != 1]
+            _fail('head-marking-leaves-constituent-without-unique-head',
+                  'after %s the constituent %s has head flags %r | %s'
+                  % (Cur.case['heads'], bad[0].label if bad else '?',
+                     [c.head for c in bad[0].kids()] if bad else None,
+                     model.show(before, '')))
+            return
         Cur.ctx.stratum('skipped: head-marking prerequisite not met')
         return          # documented prerequisite (head marking) not met
     if exc is not None:
@@ -325,6 +334,13 @@ def shard(ctx):
                         root_pieces=rng.choice([1, 1, 2, 3]))
         heads = rng.choice(['direct', 'direct', 'negra', 'negra',
                             'preset:negra', 'preset:ptb'])
+        if heads.startswith('preset:') and rng.random() < 0.6:
+            allcats = ['CO', 'DL', 'ISU', 'QL', 'CH', 'S', 'VP', 'NP', 'PP',
+                       'AP', 'INTJ', 'PRN', 'FRAG', 'UCP', 'SBAR', 'ADVP',
+                       'WHNP', 'MPN']
+            for node in gen.walk(spec['root']):
+                if 'c' in node and node is not spec['root']:
+                    node['l'] = rng.choice(allcats)
         if rng.random() < 0.3:
             gen.uproot(rng, spec, 0.2)
         if heads == 'direct':
